@@ -27,7 +27,7 @@ KERNEL_DEFS = {
     "qtytm": (QTY, ["~", "a", "{"], ["}"], "ExtMany", "OnlyOsm"),
     "mod": (MOD, ["@"], ["a", "{", "}"], "ExtMany", "OnlyOsm"),
     "modcw": (MOD, ["#"], ["a", "{", "}"], "ExtAllNone", "OnlyOsm"),
-    "modtm": (["@", "&", "?", "+", "-", "(", ")", "|", "=", "1", " ", "a"], ["~"], ["a", "{", "}"], "ExtAllNone", "OnlyOsm"),
+    "modtm": (["@", "&", "?", "+", "-", "(", ")", "|", "=", "1", " ", "a"], ["~"], ["a", "{", "}"], "ExtMany", "OnlyOsm"),
     "block": ([">", ":", "=", "a", " ", "LF", "@", "-", "[", "]", "{", "}"], [], [], "ExtModes", "BothOsm"),
     "esc": (["BS", "@", "{", "}", "a", "E2", " ", "LF", "[", "-", "]", "(", ")", "E4", "TSP"], [], [], "ExtAllNone", "OnlyOsm"),
     "wrap": (COMP, [], ["LF", "a"], "ExtAllNone", "OnlyOsm"),
